@@ -81,13 +81,30 @@ def run(job):
     try:
         for h in range(job["n"]):
             cfg = {"version": VERSIONS[h % 5], "flavour": ["sync", "async"][(h // 5) % 2], "ext": ["json", "pickle"][(h // 10) % 2], "callback": h % 3 != 2}
-            steps = history(rng, cfg["version"], directed=rng.random() < 0.5)
+            if h == 0:
+                # the id space runs out: all but a few ids are taken by presenting nodes, the rest by id requests whose nodes
+                # never present; further requests (also across a restart) must not be answered with any of them
+                # (the library hands out ids above the highest known one only, so the free ids are the top ones)
+                free = list(range(255 - rng.randint(1, 4), 255))
+                steps = [["in", f"{i};255;0;0;17;{cfg['version']}"] for i in range(1, 255) if i not in free]
+                rng.shuffle(steps)
+                for _ in range(len(free)):
+                    steps.append(["in", "255;255;3;0;3;"])
+                    if rng.random() < 0.3:
+                        steps.append(["tick"])
+                steps += [["in", "255;255;3;0;3;"], ["restart"], ["in", "255;255;3;0;3;"], ["in", "255;255;3;0;3;"]]
+                res.count("exhaustion_histories")
+                exhaustion = len(free)
+            else:
+                steps = history(rng, cfg["version"], directed=rng.random() < 0.5)
             out = run_one(cfg, steps, tmp)
             res.evals += 1
             res.count("histories")
             res.count("ticks", out["ticks"])
             res.count("restarts", len(out["restarts"]))
             judge(res, cfg, steps, out)
+            if h == 0:
+                res.count("exhaustion_ids_handed_out", len(out["idresp"]))
             if any(x[3] > 1 for x in out["idresp"]) or len(out["idresp"]) >= 2:
                 pres = tuple(sorted({s[1].split(";")[0] for s in steps if s[0] == "in" and ";255;0;0;1" in s[1]}))
                 pat = tuple(i for i, s in enumerate(steps) if s[0] in ("tick", "restart"))
@@ -115,12 +132,14 @@ def finish(agg, tier):
     return {
         "rule": "histories mixing id requests, node presentations of ids from {0,1,..,127,252..255,random}, other traffic, save "
                 "ticks (the real schedule_save body fired through a captured timer / the real asyncio save loop on a virtual clock) "
-                "and stop -> new gateway -> start_persistence cycles on one file; JSON and pickle; threaded and asyncio. Monitor: "
+                "and stop -> new gateway -> start_persistence cycles on one file; JSON and pickle; threaded and asyncio; one history per job "
+                "fills the id space (all but 1-4 ids presented, the rest requested and never presented) and keeps requesting, also after a restart. Monitor: "
                 "every id response must carry an id in 1..254 that is neither a node known immediately before the request nor an id "
                 "handed out earlier (the monitor's set survives restarts). distinct = (flavour, format, presented ids, tick/restart "
                 "positions, number of id responses); non-trivial when >= 2 id responses or one after a restart were judged.",
         "floors": [("id_responses", c.get("id_responses", 0), 2000), ("id_responses_after_restart", c.get("id_responses_after_restart", 0), 500),
-                   ("restarts", c.get("restarts", 0), 800), ("ticks", c.get("ticks", 0), 800)],
+                   ("restarts", c.get("restarts", 0), 800), ("ticks", c.get("ticks", 0), 800),
+                   ("exhaustion_histories", c.get("exhaustion_histories", 0), 20), ("exhaustion_ids_handed_out", c.get("exhaustion_ids_handed_out", 0), 30)],
         "assumptions": ["the converse (an id must be found whenever one is free) is not demanded"],
         "show": ["histories", "id_responses", "id_responses_after_restart", "ticks", "restarts"],
     }
